@@ -182,6 +182,12 @@ def explore_idna_assumption(run, binp, n):
             run.nontriv(d)
             if res != d.lower():
                 bad.append((d, res, "an all-ASCII domain without an ACE label is not answered by its lower-case form"))
+        # the extra hypothesis of Props/C15.canonicalize_hostname_shortcut_partial (`hxn`): an all-ASCII domain of CHAR_SIMPLE_HOSTNAME
+        # bytes is answered by itself even when a label starts with "xn--" (ada's to_ascii lower-cases every all-ASCII domain)
+        if is_ascii and ace and d and all(c in b"abcdefghijklmnopqrstuvwxyz0123456789-." for c in d):
+            stat["simple_with_ace"] = stat.get("simple_with_ace", 0) + 1
+            if res != d:
+                bad.append((d, res, "an all-ASCII domain of simple host bytes with an ACE label is not answered by itself (hypothesis hxn of C15)"))
     run.extra["idna_assumption_domains"] = len(doms)
     run.extra["idna_assumption_classes"] = stat
     run.oblige("corr:the IdnaAt assumption of the parser / host theorems holds of the real ada::idna::to_ascii on every generated domain",
